@@ -2,19 +2,30 @@
 
 NOTES = ("Technique family: static analysis only. Every check parses the "
          "current /repo/ebpfcat/*.py with the ast module, derives "
-         "class-hierarchy, CFG, reaching-definition and folded-table facts "
-         "and discharges structural obligations that are necessary "
-         "conditions of the property; see DESIGN.md. Before the rules run "
-         "the syntax trees are normalised (noise dropped, control flow and "
-         "negations in one canonical form, constants folded, helpers / named "
-         "constants / temporaries that the reference tree does not know "
-         "inlined, renamed locals mapped back): naming only, nothing is "
-         "executed. Exit 2 + ANALYSIS-ERROR means the analysis could not be "
-         "carried out (anchor vanished, shape outside the known idioms); it "
-         "is never a verdict. The thorough tier adds checker "
-         "self-validation: 174 seeded property-breaking changes must be "
-         "reported, 16 mechanical variants and 87 hand-made "
-         "behaviour-preserving refactorings must stay silent.")
+         "class-hierarchy, CFG, reaching-definition, path and folded-table "
+         "facts and discharges obligations that are necessary conditions of "
+         "the property; see DESIGN.md. Before the rules run the syntax trees "
+         "are normalised (noise dropped; control flow, negations, match / "
+         "walrus / with / loop spellings in one canonical form; constants "
+         "folded; helpers, closures, properties, named tuples, named "
+         "constants and temporaries that the reference tree does not know "
+         "inlined; renamed locals mapped back): naming only. Nothing of "
+         "/repo is imported or run by Python. Some obligations are decided "
+         "by *abstract execution*: the analyser's own interpreter "
+         "(sa/evalx.py) evaluates a pure layout/encoding function of the "
+         "source on closed inputs the rule constructs - exhaustively where "
+         "the input domain is finite (decision tables, format alphabets, "
+         "enumerations), on a stated finite family of configurations where "
+         "it is not (sizes, orders, numbers of terminals/variables/"
+         "datagrams); the latter are bounded checks, decided for that family "
+         "only - DESIGN.md 1.3 and 4.31 say which rule is which, the "
+         "evidence file gives the family. Exit 2 + ANALYSIS-ERROR means the "
+         "analysis could not be carried out (anchor vanished, shape outside "
+         "the known idioms); it is never a verdict. The thorough tier adds "
+         "checker self-validation on the recorded corpora: 261 seeded "
+         "property-breaking changes (254 reported, 7 end without verdict), "
+         "16 mechanical variants and 261 hand-made behaviour-preserving "
+         "refactorings (239 silent, 22 recorded as not yet understood).")
 
 _TRUST = ("Python semantics of the constructs the rules read; the frozen "
           "reference tables named in the evidence file (eBPF ISA encoding, "
@@ -266,17 +277,18 @@ claim("C26",
       "DSL event-list reader + abstract facts per variable (typestate of "
       "the command value)")
 claim("C27",
-      "decision table of Valve.update, extracted semantically: the "
-      "execution condition of every store (coil, target, error, lastGood) is "
-      "folded over switches x coil x safeState x timeout outcome (and any "
-      "further attribute the conditions read) and compared row by row with "
-      "the specification: timer refreshed exactly when the switches confirm "
-      "the coil, coil follows the target while confirmed or within "
-      "movingTime, otherwise error and coil/target from the configured "
-      "safeState attribute; reset stores both fields unconditionally; bit "
-      "variables read as bool. Does not replay histories.",
-      "finite decision-table folding over path conditions + CFG "
-      "must-pass-through")
+      "decision table of Valve.update, by abstract execution of the method "
+      "(helpers included) on every combination of switches x coil x target "
+      "x error x safeState x {within, after movingTime} (and any further "
+      "state attribute it reads): the state it ends in is compared row by "
+      "row with the specification - timer refreshed exactly when the "
+      "switches confirm the coil, coil follows the target while confirmed "
+      "or within movingTime, otherwise error and coil/target equal to the "
+      "configured safeState; reset clears the error and restarts the timer "
+      "whatever the state; bit variables read as bool; accessors read the "
+      "current frame. Does not replay histories.",
+      "exhaustive finite-domain abstract execution + class-attribute "
+      "folding")
 claim("C28",
       "branch structure of Serial.update: receive/transmit toggles guarded "
       "and paired with their data, single clearing site, read only when no "
@@ -299,3 +311,51 @@ claim("C30",
       "frame whose reaching definitions are the prepared frame or "
       "update_devices' result. Does not decide multi-cycle histories.",
       "CFG dominance + reaching definitions at send sites")
+
+
+# obligations decided by abstract execution (DESIGN.md 1.3 / 4.31): named in
+# the technique field of the properties that use them
+_ABSTRACT = {
+    "C01": "exhaustive abstract execution of the byte-swap lowering (18 "
+           "endian formats x 2 widths) and tabulation of Memory.signed / "
+           "the store-immediate predicate; path enumeration with "
+           "mode-variable propagation for opcode domains",
+    "C02": "abstract execution of ArrayGlobalVarDesc.unpack on packed "
+           "buffers (finite family)",
+    "C03": "shares the exhaustive byte-swap table of C01",
+    "C04": "abstract execution of ArrayMap.collect on a finite family of "
+           "program hierarchies (bounded)",
+    "C05": "exhaustive abstract execution of EBPF.exit over the exit-code "
+           "enumerations",
+    "C06": "path enumeration with mode-variable propagation over "
+           "Memory._set",
+    "C07": "shares the exhaustive byte-swap table and the store-immediate "
+           "tabulation of C01",
+    "C08": "abstract execution of ArrayMap.collect, SimulatedEBPF.__init__ "
+           "and unpack on finite families of hierarchies / formats (bounded)",
+    "C09": "abstract execution of TheDict.__init__ on opaque arguments",
+    "C11": "abstract execution of Packet.append/assemble on a finite family "
+           "of datagram lists with an independent frame decoder (bounded)",
+    "C12": "shares the frame family of C11; who-may-complete rule over the "
+           "class hierarchy",
+    "C13": "tabulation of the placeholder expressions over sizes up to the "
+           "datagram limit (bounded)",
+    "C17": "abstract execution of parse_sync_managers on 72 record tables "
+           "(bounded)",
+    "C18": "abstract execution of SyncGroupBase.allocate and everything it "
+           "calls on 15 terminal groups, checked against an independent "
+           "frame description (bounded)",
+    "C19": "shares the allocation family of C18; exhaustive abstract "
+           "execution of TerminalVar over value kinds",
+    "C21": "shares the allocation family of C18; linear normal forms of "
+           "frame offsets",
+    "C26": "shares the allocation family of C18 and the activation rule of "
+           "C21",
+    "C27": "exhaustive abstract execution of Valve.update/reset over the "
+           "128-row state space x 2 time classes",
+    "C29": "shares the layout family of C08",
+    "C30": "shares the allocation family of C18",
+}
+for _p, _t in _ABSTRACT.items():
+    if _p in CLAIMS:
+        CLAIMS[_p]["technique"] += "; " + _t
